@@ -1,0 +1,188 @@
+//! Verification hooks (only with the `verif` cargo feature).
+//!
+//! Nothing in here changes the behaviour of the model checker: the hooks only
+//! hand plain-data snapshots to an observer installed by an external harness,
+//! and `PathDriver` is a thin public wrapper around the crate-private
+//! `rt::Path`.
+use super::{execution, path, thread, Path};
+use std::cell::RefCell;
+
+type IterHook = Box<dyn FnMut(&str, usize, &str)>;
+type SchedHook = Box<dyn FnMut(&ScheduleEvent)>;
+
+thread_local! {
+    static ITER_HOOK: RefCell<Option<IterHook>> = RefCell::new(None);
+    static SCHED_HOOK: RefCell<Option<SchedHook>> = RefCell::new(None);
+}
+
+/// One call of `Execution::schedule`, reported after the decision was taken.
+#[derive(Debug, Clone)]
+pub struct ScheduleEvent {
+    /// Position in the path of the schedule branch that was taken.
+    pub path_pos: usize,
+    /// Thread that was active when `schedule` was entered.
+    pub prev: usize,
+    /// Thread that is active now (`None`: all terminated).
+    pub next: Option<usize>,
+    /// Per-thread state: 0 runnable, 1 runnable+unparked, 2 blocked, 3 yield,
+    /// 4 terminated.
+    pub states: Vec<u8>,
+}
+
+/// Install (or clear) the iteration hook for models run on this OS thread.
+///
+/// The hook is called with `("start", 1, path)` when `Builder::check` begins
+/// (after a checkpoint was loaded), `("end", i, path)` when iteration `i` has
+/// run, `("step", i + 1, path)` after the path was advanced for the next
+/// iteration and `("done", i, "")` when the exploration is exhausted. `path`
+/// is the serde_json serialisation of `rt::Path`.
+pub fn set_iteration_hook(f: Option<IterHook>) {
+    ITER_HOOK.with(|h| *h.borrow_mut() = f);
+}
+
+/// Install (or clear) the schedule hook for models run on this OS thread.
+pub fn set_schedule_hook(f: Option<SchedHook>) {
+    SCHED_HOOK.with(|h| *h.borrow_mut() = f);
+}
+
+pub(crate) fn iteration_event(phase: &str, iter: usize, path: Option<&Path>) {
+    ITER_HOOK.with(|h| {
+        // `try_borrow_mut`: a hook that itself runs a model must not recurse.
+        if let Ok(mut h) = h.try_borrow_mut() {
+            if let Some(f) = h.as_mut() {
+                let s = match path {
+                    Some(p) => serde_json::to_string(p).unwrap(),
+                    None => String::new(),
+                };
+                f(phase, iter, &s);
+            }
+        }
+    });
+}
+
+pub(crate) fn schedule_event(
+    path_pos: usize,
+    prev: usize,
+    next: Option<usize>,
+    threads: &thread::Set,
+) {
+    SCHED_HOOK.with(|h| {
+        if let Ok(mut h) = h.try_borrow_mut() {
+            if let Some(f) = h.as_mut() {
+                let states = threads
+                    .iter()
+                    .map(|(_, th)| match th.state {
+                        thread::State::Runnable { unparked: false } => 0,
+                        thread::State::Runnable { unparked: true } => 1,
+                        thread::State::Blocked(..) => 2,
+                        thread::State::Yield => 3,
+                        thread::State::Terminated => 4,
+                    })
+                    .collect();
+                f(&ScheduleEvent {
+                    path_pos,
+                    prev,
+                    next,
+                    states,
+                });
+            }
+        }
+    });
+}
+
+/// Drives the crate-private `rt::Path` directly.
+#[derive(Debug)]
+pub struct PathDriver {
+    path: Path,
+    id: execution::Id,
+}
+
+impl PathDriver {
+    /// `Path::new`
+    pub fn new(max_branches: usize, bound: Option<u8>, exploring: bool) -> Self {
+        PathDriver {
+            path: Path::new(max_branches, bound, exploring),
+            id: execution::Id::new(),
+        }
+    }
+
+    /// `Path::branch_thread`; seed codes: 0 Disabled, 1 Skip, 2 Yield,
+    /// 3 Pending, 4 Active, 5 Visited.
+    pub fn branch_thread(&mut self, seed: &[u8]) -> Option<usize> {
+        let v: Vec<path::Thread> = seed
+            .iter()
+            .map(|s| match s {
+                0 => path::Thread::Disabled,
+                1 => path::Thread::Skip,
+                2 => path::Thread::Yield,
+                3 => path::Thread::Pending,
+                4 => path::Thread::Active,
+                _ => path::Thread::Visited,
+            })
+            .collect();
+        self.path
+            .branch_thread(self.id, v.into_iter())
+            .map(|i| i.as_usize())
+    }
+
+    /// `Path::backtrack`
+    pub fn backtrack(&mut self, point: usize, thread: usize) {
+        self.path.backtrack(point, thread::Id::new(self.id, thread));
+    }
+
+    /// `Path::push_load` (only when the path is traversed) then
+    /// `Path::branch_load`, as `Atomic::load` does.
+    pub fn load(&mut self, seed: &[u8]) -> usize {
+        if self.path.is_traversed() {
+            self.path.push_load(seed);
+        }
+        self.path.branch_load()
+    }
+
+    /// `Path::branch_spurious`
+    pub fn spurious(&mut self) -> bool {
+        self.path.branch_spurious()
+    }
+
+    /// `Path::step`
+    pub fn step(&mut self) -> bool {
+        self.path.step()
+    }
+
+    /// `Path::explore_state`
+    pub fn explore_state(&mut self) {
+        self.path.explore_state()
+    }
+
+    /// `Path::critical`
+    pub fn critical(&mut self) {
+        self.path.critical()
+    }
+
+    /// `Path::skip_branch`
+    pub fn skip_branch(&mut self) {
+        self.path.skip_branch()
+    }
+
+    /// `Path::is_traversed`
+    pub fn is_traversed(&self) -> bool {
+        self.path.is_traversed()
+    }
+
+    /// `Path::pos`
+    pub fn pos(&self) -> usize {
+        self.path.pos()
+    }
+
+    /// serde_json snapshot of the path
+    pub fn snapshot(&self) -> String {
+        serde_json::to_string(&self.path).unwrap()
+    }
+
+    /// Replace the path by its serde round trip, as a checkpoint store
+    /// followed by a load does (`set_max_branches` included).
+    pub fn roundtrip(&mut self, max_branches: usize) {
+        self.path = serde_json::from_str(&self.snapshot()).unwrap();
+        self.path.set_max_branches(max_branches);
+    }
+}
